@@ -10,6 +10,7 @@ import (
 	"time"
 
 	"github.com/gotd/td/bin"
+	"github.com/gotd/td/clock"
 	"github.com/gotd/td/crypto"
 	"github.com/gotd/td/exchange"
 	"github.com/gotd/td/internal/verif/kit"
@@ -22,9 +23,10 @@ import (
 )
 
 type params struct {
-	Entry    string `json:"entry"`     // exchange | conn | conn-pfs-perm | conn-pfs-temp | conn-regen-404
-	SilentAt int    `json:"silent_at"` // the peer stops before its k-th message of the targeted exchange (1..3); 0 = honest
-	Deadline string `json:"deadline"`  // caller context: "none" | "1h"
+	Entry    string `json:"entry"`          // exchange | conn | conn-pfs-perm | conn-pfs-temp | conn-regen-404
+	SilentAt int    `json:"silent_at"`      // the peer stops before its k-th message of the targeted exchange (1..3); 0 = honest
+	Deadline string `json:"deadline"`       // caller context: "none" | "1h"
+	Skew     string `json:"skew,omitempty"` // "+1h": the injected clock (Options.Clock, e.g. NTP-corrected) runs one hour ahead of the system time that timers live on
 }
 
 const (
@@ -33,6 +35,18 @@ const (
 )
 
 var errStop = errors.New("harness: stop")
+
+// skewed is the injected clock.Clock of a client whose time source is ahead of the system clock.
+type skewed struct{ sx.Clock }
+
+func (skewed) Now() time.Time { return vsched.Now().Add(hour) }
+
+func clockOf(p params) clock.Clock {
+	if p.Skew == "+1h" {
+		return skewed{}
+	}
+	return sx.Clock{}
+}
 
 type handler struct{ o *sx.Obs }
 
@@ -76,11 +90,11 @@ func body(p params, o *sx.Obs) {
 		var err error
 		switch p.Entry {
 		case "exchange":
-			_, err = exchange.NewExchanger(cli, 2).WithClock(sx.Clock{}).WithRand(kit.NewStream(7)).
+			_, err = exchange.NewExchanger(cli, 2).WithClock(clockOf(p)).WithRand(kit.NewStream(7)).
 				WithTimeout(exchangeTimeout).Client(keys).Run(ctx)
 		default:
 			opt := mtproto.Options{
-				DC: 2, PublicKeys: keys, Clock: sx.Clock{}, Random: kit.NewStream(7), Cipher: crypto.NewClientCipher(kit.NewStream(8)),
+				DC: 2, PublicKeys: keys, Clock: clockOf(p), Random: kit.NewStream(7), Cipher: crypto.NewClientCipher(kit.NewStream(8)),
 				Handler: handler{o}, ExchangeTimeout: exchangeTimeout, DialTimeout: 10 * hour,
 				PingInterval: 10 * hour, PingTimeout: hour, SaltFetchInterval: 100 * hour, AckInterval: hour, RetryInterval: hour,
 			}
@@ -179,8 +193,14 @@ func main() {
 		for _, e := range []string{"exchange", "conn", "conn-pfs-perm", "conn-pfs-temp", "conn-regen-404"} {
 			for _, d := range []string{"none", "1h"} {
 				for k := 0; k <= 3; k++ {
-					scs = append(scs, params{e, k, d})
+					scs = append(scs, params{e, k, d, ""})
 				}
+			}
+		}
+		// configurations with a skewed injected clock: the bound must not depend on the clock's offset
+		for _, e := range []string{"exchange", "conn-pfs-temp", "conn-regen-404"} {
+			for k := 0; k <= 3; k++ {
+				scs = append(scs, params{e, k, "none", "+1h"})
 			}
 		}
 		mk := func(p params) sx.Scenario[params] {
@@ -196,7 +216,7 @@ func main() {
 		}
 		c.Rule("fault enumeration: the peer (in-tree ServerExchange over an in-memory wire) goes silent before its k-th message, k in 0(honest)..3, for 5 entry points "+
 			"{ClientExchange.Run, Conn.Run non-PFS, PFS permanent exchange, PFS temporary exchange, key regeneration after transport error -404} x caller deadline "+
-			"{none, 1h}; ExchangeTimeout 60s, every other timer >= 1h, virtual clock; schedules: quick = the default schedule; thorough = every schedule with <= %d preemption/early-timer "+
+			"{none, 1h}, plus 12 configurations whose injected clock runs 1h ahead of the timer clock; ExchangeTimeout 60s, every other timer >= 1h, virtual clock; schedules: quick = the default schedule; thorough = every schedule with <= %d preemption/early-timer "+
 			"deviation(s) and <= 1 non-default free choice. Oracle: the client returns an error no later than 60s of virtual time after its last "+
 			"transmission; 'no enabled thread and no armed timer' or a later return is the violation. Honest runs (k=0) must succeed.", bound)
 		c.Assume("virtual time; real 2048-bit crypto on both sides (about 0.1-0.3 s per exchange), hence the small deviation bound")
